@@ -81,7 +81,7 @@ def run_and_check(rec, F, cnt, prefix='C04', check_temp=True):
         s0 = len(post.steps)
         t_start = float(m.t)
         try:
-            m.solve(op['k'] * dt0, solverType=w)
+            m.solve(op['k'] * dt0, solverType=w, **({'minDtFrac': op['minf']} if op.get('minf') else {}))
         except DW.StepCap:
             capped = True
         except Exception as e:  # noqa
@@ -119,6 +119,11 @@ def run_and_check(rec, F, cnt, prefix='C04', check_temp=True):
                             want = v - len(cfg['all_elements']) * minC if v > minC else minC
                             if abs(float(x_old[ei, node]) - want) > 4 * np.spacing(max(abs(want), 1e-300)):
                                 F.add(prefix + '.dirichlet_value', f'element {e}: node {node} has a fixed-composition condition {v!r} but starts the run at {float(x_old[ei, node])!r} (expected {want!r})', side=side)
+            # the state is advanced over exactly the recorded time increment: the ledger below speaks about the step from the previous
+            # recorded time to this one, so the dt the iterator integrated over must be that increment
+            t_prev = post.steps[s0 + j - 1][0] if j > 0 else t_start
+            if abs((time - t_prev) - dt) > 8 * np.spacing(max(abs(time), abs(dt))):
+                F.add(prefix + '.step_clock', f'call {ci} step {j}: the state was integrated over dt={dt!r} but the recorded time advanced from {t_prev!r} to {time!r} ({time - t_prev!r})', where='solver')
             if len(calls) != len(wts):
                 F.add(prefix + '.stage_count', f'call {ci} step {j}: {len(calls)} flux evaluations for iterator {op["it"]}', where='iterator')
                 continue
